@@ -1216,40 +1216,39 @@ class System:
             rails.remove("")
             rail, vin, iin, pwr, loss, eff = [], [], [], [], [], []
             warn, phases, res = [], [], {}
-            if len(rails) > 0:
-                for ph in phase_list:
-                    for r in rails:
-                        if ph != "":
-                            filt = (df["Rail in"] == r) & (df["Phase"] == ph)
-                        else:
-                            filt = df["Rail in"] == r
-                        if not filt.any():  # rail feeds nothing in this phase
-                            continue
-                        rail += [r]
-                        phases += [ph]
-                        vin += [df[filt]["Vin (V)"].tolist()[0]]
-                        iin += [sum(df[filt]["Iin (A)"])]
-                        p = sum(df[filt]["Power (W)"])
-                        pwr += [p]
-                        l = sum(df[filt]["Loss (W)"])
-                        loss += [l]
-                        if l == 0.0:
-                            eff += [100.0]
-                        else:
-                            eff += [100 * p / (p + l)]
-                        w = set(df[filt]["Warnings"].tolist())
-                        w.discard("")
-                        warn += [", ".join(sorted(w))]
-                if phase_list != [""]:
-                    res["Phase"] = phases
-                res["Rail"] = rail
-                res["Voltage (V)"] = vin
-                res["Current (A)"] = iin
-                res["Power (W)"] = pwr
-                res["Loss (W)"] = loss
-                res["Efficiency (%)"] = eff
-                res["Warnings"] = warn
-                return pd.DataFrame(res)
+            for ph in phase_list:
+                for r in rails:
+                    if ph != "":
+                        filt = (df["Rail in"] == r) & (df["Phase"] == ph)
+                    else:
+                        filt = df["Rail in"] == r
+                    if not filt.any():  # rail feeds nothing in this phase
+                        continue
+                    rail += [r]
+                    phases += [ph]
+                    vin += [df[filt]["Vin (V)"].tolist()[0]]
+                    iin += [sum(df[filt]["Iin (A)"])]
+                    p = sum(df[filt]["Power (W)"])
+                    pwr += [p]
+                    l = sum(df[filt]["Loss (W)"])
+                    loss += [l]
+                    if l == 0.0:
+                        eff += [100.0]
+                    else:
+                        eff += [100 * p / (p + l)]
+                    w = set(df[filt]["Warnings"].tolist())
+                    w.discard("")
+                    warn += [", ".join(sorted(w))]
+            if phase_list != [""]:
+                res["Phase"] = phases
+            res["Rail"] = rail
+            res["Voltage (V)"] = vin
+            res["Current (A)"] = iin
+            res["Power (W)"] = pwr
+            res["Loss (W)"] = loss
+            res["Efficiency (%)"] = eff
+            res["Warnings"] = warn
+            return pd.DataFrame(res)
         else:
             return df
 
